@@ -637,15 +637,18 @@ CORPUS_TEXTS = [
 def run(ctx):
     rng = ctx.rng
     tmp = tempfile.mkdtemp(prefix="verif-c29-")
+    saved_tempdir = tempfile.tempdir
+    tempfile.tempdir = tmp          # script(tempdir=True) calls mkdtemp even when it then raises: keep those inside tmp
     try:
-        texts = list(CORPUS_TEXTS) + [gen_text(rng) for _ in range(ctx.n(1200, 12000))]
+        texts = list(CORPUS_TEXTS) + [gen_text(rng) for _ in range(ctx.n(1000, 12000))]
         check_texts(ctx, texts)
         bash_cases = [("cat", "#!/bin/cat\n" + t) for t in CORPUS_TEXTS[:ctx.n(12, 40)]]
-        bash_cases += [gen_runnable(rng) for _ in range(ctx.n(60, 500))]
+        bash_cases += [gen_runnable(rng) for _ in range(ctx.n(50, 500))]
         check_bash(ctx, bash_cases, tmp)
-        check_scripts(ctx, [gen_script_case(rng) for _ in range(ctx.n(300, 2500))])
-        check_e2e(ctx, [gen_e2e(rng) for _ in range(ctx.n(8, 80))], tmp)
+        check_scripts(ctx, [gen_script_case(rng) for _ in range(ctx.n(250, 2500))])
+        check_e2e(ctx, [gen_e2e(rng) for _ in range(ctx.n(6, 80))], tmp)
     finally:
+        tempfile.tempdir = saved_tempdir
         shutil.rmtree(tmp, ignore_errors=True)
 
 
